@@ -206,6 +206,7 @@ BodyX   == {"JSON", "URLEncoded", "Multipart", "Text"}
 HeaderX == {"Auth", "MaxFwd", "Cookie"}
 ItemX   == {"Query"} \cup BodyX \cup HeaderX
 \* payload classes of a structured item (targets {a: String, n: u32} = "AN", {a: String, n: Option<u32>} = "AO",
+\* {a: Option<String>, n: Option<u32>} = "OO": the one target that no query at all denotes a value of ("nothing"),
 \* {a: String, n: String} = "AS": multipart text fields are strings, ohkami's multipart deserializer reads no numbers)
 StructPl == {"v1", "v2", "extra", "syntax", "wrongtype", "missing"}
 TextPl   == {"v1", "v2", "nonutf8"}
@@ -214,13 +215,15 @@ TextPl   == {"v1", "v2", "nonutf8"}
 Deser(ty, pl) ==
   CASE pl \in {"v1", "v2"} -> [st |-> "valid", v |-> pl]
     [] pl = "extra"        -> [st |-> "may", v |-> "v1"]          \* v1 plus an unknown key: ignored or refused
-    [] pl = "missing"      -> IF ty = "AO" THEN [st |-> "valid", v |-> "v1-n"] ELSE [st |-> "invalid", v |-> ""]
+    [] pl = "missing"      -> IF ty \in {"AO", "OO"} THEN [st |-> "valid", v |-> "v1-n"] ELSE [st |-> "invalid", v |-> ""]
     [] pl = "wrongtype" /\ ty = "AS" -> [st |-> "valid", v |-> "v1w"]   \* any text is a string
     [] OTHER               -> [st |-> "invalid", v |-> ""]
 
 \* what the request carries for item `it`:  st in {"absent","empty","valid","invalid","may"}
 Carried(it, rq) ==
-  CASE it.x = "Query"  -> IF rq.q \in {"absent", "emptyq"} THEN [st |-> "absent", v |-> ""] ELSE Deser(it.ty, rq.q)   \* emptyq: a bare `?`
+  CASE it.x = "Query"  -> IF rq.q \in {"absent", "emptyq"}                                                          \* emptyq: a bare `?`
+                          THEN (IF it.ty = "OO" THEN [st |-> "valid", v |-> "nothing"] ELSE [st |-> "absent", v |-> ""])
+                          ELSE Deser(it.ty, rq.q)
     [] it.x = "Auth"   -> IF rq.auth = "absent" THEN [st |-> "absent", v |-> ""] ELSE [st |-> "valid", v |-> rq.auth]
     [] it.x = "MaxFwd" -> IF rq.mf = "absent" THEN [st |-> "absent", v |-> ""]
                           ELSE IF rq.mf = "valid" THEN [st |-> "valid", v |-> "n1"] ELSE [st |-> "invalid", v |-> ""]
@@ -302,7 +305,7 @@ ImplParam(ty, toks) ==
 ImplItemRaw(it, rq) ==
   LET c == Carried(it, rq)
       parsed == IF c.st = "valid" \/ c.st = "may" THEN [t |-> "ok", v |-> c.v] ELSE [t |-> "err", v |-> ""] IN
-  CASE it.x = "Query" -> IF rq.q \in {"absent", "emptyq"} THEN [t |-> "err", v |-> ""] ELSE parsed     \* the empty query is parsed, too
+  CASE it.x = "Query" -> IF rq.q \in {"absent", "emptyq"} /\ it.ty # "OO" THEN [t |-> "err", v |-> ""] ELSE parsed     \* the empty query is parsed, too
     [] it.x \in HeaderX -> IF c.st = "absent" THEN [t |-> "none", v |-> ""] ELSE parsed
     [] OTHER -> IF rq.ct.mime = "none" THEN [t |-> "none", v |-> ""]
                 ELSE IF rq.ct.mime # it.x \/ rq.ct.var = "case" THEN [t |-> "none", v |-> ""]   \* starts_with(MIME_TYPE)
@@ -327,7 +330,7 @@ ImplOutcome(scn) ==
 (* 6. catalogue of handler signatures compiled into the harness            *)
 (* ======================================================================= *)
 It(x, opt, ty) == [x |-> x, opt |-> opt, ty |-> ty]
-iQ == It("Query", FALSE, "AN")      iQo == It("Query", TRUE, "AN")     iQA == It("Query", FALSE, "AO")
+iQ == It("Query", FALSE, "AN")      iQo == It("Query", TRUE, "AN")     iQA == It("Query", FALSE, "AO")     iQOO == It("Query", FALSE, "OO")
 iJ == It("JSON", FALSE, "AN")       iJo == It("JSON", TRUE, "AN")      iJA == It("JSON", FALSE, "AO")    iJAo == It("JSON", TRUE, "AO")
 iU == It("URLEncoded", FALSE, "AN") iUo == It("URLEncoded", TRUE, "AN")
 iM == It("Multipart", FALSE, "AS")  iMo == It("Multipart", TRUE, "AS")
@@ -345,7 +348,7 @@ ParamSigs == {Sig("none", <<>>, <<>>)}
              \cup {Sig("bare", <<t>>, <<>>) : t \in ParamTy} \cup {Sig("tuple", <<t>>, <<>>) : t \in ParamTy}
              \cup {Sig("tuple", p, <<>>) : p \in PairCat}
 ItemSigs ==
-  {Sig("none", <<>>, <<i>>) : i \in {iQ, iQo, iQA, iJ, iJo, iJA, iJAo, iU, iUo, iM, iMo, iT, iTo, iA, iAo, iX, iXo, iC, iCo}}
+  {Sig("none", <<>>, <<i>>) : i \in {iQ, iQo, iQA, iQOO, iJ, iJo, iJA, iJAo, iU, iUo, iM, iMo, iT, iTo, iA, iAo, iX, iXo, iC, iCo}}
   \cup {Sig("none", <<>>, is) : is \in {<<iQ, iJ>>, <<iQo, iJo>>, <<iQ, iTo>>, <<iA, iJ>>, <<iAo, iCo>>, <<iC, iU>>, <<iJo, iTo>>, <<iX, iMo>>, <<iXo, iQ>>,
                                          <<iQ, iA, iJ>>, <<iQo, iAo, iUo>>, <<iQ, iA, iC, iJ>>, <<iQo, iXo, iCo, iTo>>}}
   \cup {Sig("bare", <<"u32">>, <<iQ>>), Sig("bare", <<"String">>, <<iJ>>), Sig("bare", <<"i64">>, <<iQo, iJo>>), Sig("bare", <<"u8">>, <<iA, iT>>),
